@@ -97,6 +97,9 @@ func runPlugin(bin string, req *pluginpb.CodeGeneratorRequest, cwd string, env [
 }
 
 func request(f *corpus.File, param string) *pluginpb.CodeGeneratorRequest {
+	if f.ParamV1 != "" && strings.Contains(param, "apiversion=v1") {
+		param += "," + f.ParamV1
+	}
 	return &pluginpb.CodeGeneratorRequest{
 		FileToGenerate: []string{f.ProtoPath()},
 		Parameter:      proto.String(param),
